@@ -254,7 +254,17 @@ impl CachedFile {
 fn collect_cached_files(cache_dir: &Path) -> Result<(Vec<CachedFile>, u64)> {
     let mut cache = Vec::new();
     let mut count = 0;
-    for maybe_entry in std::fs::read_dir(cache_dir)? {
+    // An empty path means the current directory wherever a file name
+    // is joined onto it (that is how entries are inserted and looked
+    // up), but `read_dir("")` fails with ENOENT: list "." instead, or
+    // such a cache would never be pruned.
+    let listed = if cache_dir.as_os_str().is_empty() {
+        Path::new(".")
+    } else {
+        cache_dir
+    };
+
+    for maybe_entry in std::fs::read_dir(listed)? {
         count += 1;
         if let Ok(entry) = maybe_entry {
             // Cached files never start with a dot: that namespace is
